@@ -19,18 +19,41 @@ import (
 
 // ---- observation routes for failure classification (property C12 anchors) ----
 
+// One policy per list of registrations classifies every outcome it is shown: what it made of an earlier outcome says nothing
+// about the next one (the policies are kept across cases, keyed by their registrations).
+type fbProbe struct {
+	pol     failsafe.Policy[int]
+	applied bool
+}
+
+var (
+	fbProbes = map[string]*fbProbe{}
+	rpProbes = map[string]failsafe.Policy[int]{}
+)
+
 func obsFallback(calls []CallD, o OutD) bool {
-	applied := false
-	fb := applyHandle(fallback.BuilderWithResult[int](-99), calls).
-		OnFallbackExecuted(func(failsafe.ExecutionDoneEvent[int]) { applied = true }).Build()
+	key := callsGallina(calls, false)
+	p := fbProbes[key]
+	if p == nil {
+		p = &fbProbe{}
+		p.pol = applyHandle(fallback.BuilderWithResult[int](-99), calls).
+			OnFallbackExecuted(func(failsafe.ExecutionDoneEvent[int]) { p.applied = true }).Build()
+		fbProbes[key] = p
+	}
+	p.applied = false
 	r, e := o.Go()
-	failsafe.Get(func() (int, error) { return r, e }, fb)
-	return applied
+	failsafe.Get(func() (int, error) { return r, e }, p.pol)
+	return p.applied
 }
 
 func obsRetry(calls []CallD, o OutD) bool {
+	key := callsGallina(calls, false)
+	rp := rpProbes[key]
+	if rp == nil {
+		rp = applyHandle(retrypolicy.Builder[int](), calls).WithMaxRetries(1).Build()
+		rpProbes[key] = rp
+	}
 	n := 0
-	rp := applyHandle(retrypolicy.Builder[int](), calls).WithMaxRetries(1).Build()
 	r, e := o.Go()
 	failsafe.Get(func() (int, error) { n++; return r, e }, rp)
 	return n == 2
@@ -206,7 +229,9 @@ func c12Outcomes(r *Rng) []OutD {
 		mk(ErrD{K: "CustomIs", A: 0, B: 0}), mk(sent(3)), mk(ErrD{K: "Open"}), mk(ErrD{K: "CtxDeadline"}),
 		// a typed nil pointer (err != nil, of type *PtrErr1), alone and wrapped; an error whose As method claims every type
 		mk(ErrD{K: "TypedP", A: 1, B: typedNilB}), mk(wrap(ErrD{K: "TypedP", A: 0, B: typedNilB})),
-		mk(ErrD{K: "TypedP", A: asShimTy, B: 0}), mk(wrap(ErrD{K: "TypedP", A: asShimTy, B: 0})), mk(join(ErrD{K: "TypedP", A: asShimTy, B: 0}, sent(2)))}
+		mk(ErrD{K: "TypedP", A: asShimTy, B: 0}), mk(wrap(ErrD{K: "TypedP", A: asShimTy, B: 0})), mk(join(ErrD{K: "TypedP", A: asShimTy, B: 0}, sent(2))),
+		// an error value of a slice type (unhashable, uncomparable), alone and wrapped
+		mk(ErrD{K: "TypedV", A: sliceTy, B: 3}), mk(wrap(ErrD{K: "TypedV", A: sliceTy, B: 3}))}
 	var outs []OutD
 	for _, res := range []int64{0, 1, 7} {
 		for _, e := range errs {
